@@ -486,7 +486,13 @@ nni_dialer_start_aio(nni_dialer *d, unsigned flags, nni_aio *aiop)
 	}
 
 	if (aiop != NULL) {
-		nni_aio_start(aiop, NULL, NULL);
+		if (!nni_aio_start(aiop, NULL, NULL)) {
+			// The aio could not be started (stopped, canceled, or
+			// a zero timeout): it is completing with that error,
+			// so it must not be completed again by the dial.
+			nni_atomic_flag_reset(&d->d_started);
+			return (0);
+		}
 	}
 
 	// Note that flags is currently unused, since the only flag is
